@@ -9,7 +9,7 @@ import sys
 from concurrent.futures import ThreadPoolExecutor
 
 VERIF = "/verif"
-OUT = "/tmp/benign_out"
+OUT = os.environ.get("BENIGN_DIR", "/tmp/benign_out")
 WT = "/tmp/wt_benign"
 PY = "/venv/bin/python"
 
